@@ -15,7 +15,7 @@ RULE = ("Base: the deterministic regtest chain whose block 110 chainparams commi
         "seeded selection of coins (thorough: all coins), every metadata field (magic, version, network, base hash, coins count), "
         "truncations (quick: every 16th offset + record boundaries; thorough: every offset), byte flips (quick: random; thorough: every "
         "offset x 2 patterns), appended bytes; (b) base-block scenarios with the genuine file (tip at/above the base, base or ancestor "
-        "invalidated, better competing header chain, consistent snapshot of an uncommitted block, header unknown); (c) background "
+        "invalidated, better competing header chain, consistent snapshot of an uncommitted block, header unknown, and the genuine dump re-pointed at a sibling of the committed block with identical transactions/UTXO set: header only / with block data / on a chain with more or less work); (c) background "
         "validation after acceptance, with and without one perturbed coin in the background chainstate. Every attempt is made against a "
         "node that was freshly created for the batch (headers known, first H blocks validated, H random). A case is non-trivial when the "
         "mutated file differs from the genuine bytes or the scenario differs from the plain one; distinct = (class, kind, field hit, decoder verdict).")
@@ -27,11 +27,11 @@ ASSUMPTIONS = [
     "base-block scenarios rely on facts the engine reads from the node's block index (base known / failed / more work / on best header chain)",
 ]
 REQUIRED = ["refused_malformed", "refused_different", "identical_content", "identical_accepted", "bg_validation", "bg_success", "bg_perturbed_refused",
-            "base_refused", "end_next_block", "end_genuine_accepted", "cls_field", "cls_meta", "cls_trunc", "cls_flip", "cls_append"]
+            "base_refused", "base_sibling_same_utxo_refused", "end_next_block", "end_genuine_accepted", "cls_field", "cls_meta", "cls_trunc", "cls_flip", "cls_append"]
 LEVEL_TEXT = "every enumerated corruption of the file / base scenario was refused and left the node untouched; identical-content files may be accepted"
 LEVEL_NOTE = "decoder and digest are own code; only the enumerated mutations of one genuine regtest snapshot are covered"
 
-QUICK = dict(n_field=16 * 14, n_meta=36, n_trunc=481 + 1, trunc_step=16, n_flip=400, flip_all=0, n_app=16, batch=6, n_ident=4, n_base=24, n_bg=16)
+QUICK = dict(n_field=16 * 14, n_meta=36, n_trunc=481 + 1, trunc_step=16, n_flip=400, flip_all=0, n_app=16, batch=6, n_ident=4, n_base=36, n_bg=16)
 # 7693-byte file, 110 coins
 THOROUGH = dict(n_field=16 * 110, n_meta=36 * 3, n_trunc=7693, trunc_step=1, n_flip=2 * 7693, flip_all=1, n_app=64, batch=12, n_ident=8, n_base=48, n_bg=48)
 
@@ -143,6 +143,9 @@ def check(rec, st):
         st.violation("activate-snapshot-threw", "ActivateSnapshot let an exception escape: " + rec["err"], det, c)
     if not activated:
         if must_refuse:
+            if cls == "base" and rec["scn"].startswith("sibling_"):
+                st.seen("base_sibling_same_utxo_refused")
+                st.seen("base_sibling_refused:" + rec["scn"])
             if cls == "base":
                 st.seen("base_refused")
                 st.seen("base_refused:" + must_refuse)
